@@ -33,12 +33,12 @@ def obligations(tier):
                         ('h_b64_dec', ['b64IsValid', 'b64To', 'b64From'], 'every character string of length 0..%d', 12),
                         ('h_b64_enc', ['b64From', 'b64To', 'b64IsValid'], 'every octet string of length 0..9', 12),
                         ('h_hex', ['hexIsValid', 'hexTo', 'hexFrom', 'hexEq'], 'every character string of length 0..%d', 12),
-                        ('h_oid_dec', ['oidFromDER', 'oidToDER', 'oidIsValid'], 'every octet string of length 0..%d', 10),
+                        ('h_oid_dec', ['oidFromDER', 'oidToDER', 'oidIsValid'], 'every octet string of length 0..%d', 6 if tier == 'quick' else 9),
                         ('h_dec', ['decIsValid', 'decFromU32', 'decToU32'], 'every character string of length 0..%d; every u32', 12)]:
         obs.append(Ob(name='c08_%s' % e[2:], harness='harness/C08/misc.c', entry=e, defs=['N=%d' % n], srcs=MISC, unwind=4 * n + 8, timeout=900, replay='asan',
                       backend=['cadical', 'kissat'], funcs=fn, bound=(b % n) if '%d' in b else b))
     BP = ['src/crypto/bign/bign_params.c', 'src/core/der.c', 'src/core/oid.c', 'src/core/str.c', 'src/core/mem.c', 'src/core/util.c', 'src/core/hex.c', 'src/core/u32.c', 'src/core/u64.c', 'src/core/word.c']
-    obs.append(Ob(name='c08_bignParamsDec_mutants', harness='harness/C08/bignparams.c', entry='h_params_dec', defs=['NB=420'], srcs=BP,
-                  unwind=70, timeout=600, mem_gb=16, replay='asan', checks=['--bounds-check', '--pointer-check'], funcs=['bignParamsDec', 'bignParamsDec_internal', 'derUINTDec', 'derOCTDec2', 'derBITDec2'],
+    if tier == 'thorough': obs.append(Ob(name='c08_bignParamsDec_mutants', harness='harness/C08/bignparams.c', entry='h_params_dec', defs=['NB=420'], srcs=BP,
+                  unwind=70, timeout=3000, mem_gb=24, replay='asan', checks=['--bounds-check', '--pointer-check'], funcs=['bignParamsDec', 'bignParamsDec_internal', 'derUINTDec', 'derOCTDec2', 'derBITDec2'],
                   bound='420-octet inputs: valid encoding of bign-curve256v1 up to the tag of the modulus, then a two-octet length field with EVERY value and every continuation; *params is a heap object of exactly sizeof(bign_params)'))
     return obs
